@@ -6,7 +6,7 @@ import json
 
 from cases import evaluate, run_corpus, normalise_field_case, resolve_py, split_records
 from common import case_line, parse_result
-from gen import bound_text, sides, wellformed_bound
+from gen import bound_text, sides, wellformed_bound, pick_side
 
 LEVEL = "proof"
 SPECIALS = ['"', "\\", "\x00", "\x01", "\x08", "\x0c", "\r", "\t", "\x1f", "\x7f", " ", "😎", "a", "é", "\n"]
@@ -52,7 +52,7 @@ def _run_once(chk):
         bs = []
         for _ in range(nb):
             while True:
-                l, r = rng.choice(sides(4)), rng.choice(sides(4))
+                l, r = pick_side(rng, 4), pick_side(rng, 4)
                 single = rng.random() < 0.4
                 if single:
                     if l is None:
